@@ -63,6 +63,27 @@ T = {
    "44 generated shapes per derive macro (1..8 fields, repeated types, nested sets, built-in agents in between), many seeds, 4 rounds each.",
    "Shapes are fixed at compile time (generated source committed)."),
 }
+
+# additions of the later rounds (kept separate so that the base texts above stay readable)
+EXTRA = {
+ "C01": " Later additions: alphabets with orders created but not placed and books started at time 0; random histories with orders at p and 2^32-1-p on one side, deep queues (270-640 orders on a level) and start time 0.",
+ "C02": " Later additions: unplaced orders and start time 0 in the exhaustive alphabets; mirror-price and deep-queue histories.",
+ "C04": " Later additions: unplaced orders / start time 0 alphabets; snapshot reloads in the random profile (a terminal record must survive a reload).",
+ "C06": " Later additions: unplaced orders / start time 0 alphabets; snapshot reloads in the random profile.",
+ "C08": " Later additions: effective cancellations pinned by their end time in the schedule search, budget counted on branching nodes, up to max(3, 0.2%) unsettled sessions tolerated and reported; crowded batches (257..700 instructions) and start time 0.",
+ "C09": " Later additions: crowded configurations (150..450 agents per set), start time and trading flag varied, and the in-process repeat follows unrelated activity on the same thread (abandoned environments with pending instructions, a simulation abandoned after two steps).",
+ "C12": " Later additions: the level accounting reads both the level getters and the level-2 record; an accepted creation must store the requested price; bids at price 0.",
+ "C14": " Later additions: a second family of multi-asset sessions whose steps carry more instructions than the step size.",
+ "C15": " Later additions: a third of the steps with trading disabled; a fifth of the environments run next to a twin (same history, same batches incl. several modifications to one price, cloned generator) whose snapshot text must agree after every step.",
+ "C16": " Later additions: 30% of the simulations spend all or half of their steps in a no-trading period on a crossed harness book; the momentum signal is recomputed from the observed mids and side / saturated activity of momentum agents are judged; tick ranges at the top of the price range and from tick 0.",
+ "C17": " Later additions: negative demand / scale, holds (mid unchanged while momentum fades), 15% of the paths in a no-trading period with crossed harness quotes of varying width, fractional order ratios.",
+ "C18": " Later additions: positional / keyword argument forms, volume 0, and a second opinion for StepEnv scripts whose values leave the Rust twin (schedule inferred from the object's own time-stamps and reproduced on a plain Python OrderBook, all consistent schedules tracked, getters recomputed from the object's own lists, determinism on a second object, last-slot Hoeffding test at 1e-9 for instructions dropped before the shuffle), so that another generator inside the binding is not reported while bindings that alter the batch are.",
+ "C19": " Later additions: every array / dictionary series / history getter is judged against the documented quantities recomputed from get_orders()/get_trades() of the same Python object, laid out as the live docstring tables say (rows mapped to quantities, any table style); traded volume from the trade log; quiet steps, reads before the first step and between submission and step, books at the bottom of the price range.",
+ "C20": " Now 64 shapes per derive: generic probes over PhantomData/Option/Vec/arrays/fn pointers/references/unit, boxed probes, aliases, parenthesised / type-macro / qualified-path field types, structs declared through macro_rules, doc comments and attributes mentioning words a derive might look for.",
+}
+for k, v in EXTRA.items():
+    c, tech, text, note = T[k]
+    T[k] = (c, tech, text + v, note)
 checks = []
 for pid in sorted(T):
     cat, tech, text, note = T[pid]
@@ -81,7 +102,7 @@ m = {
            "baseline_off_cmd": "cd /repo && cargo test --workspace --no-fail-fast --offline", "source_commits": hook_commits, "add_only": True},
  "engines": [{"name": "bvmon", "path": "/verif/harness", "serves_properties": sorted(T), "kind_free_text": "Rust harness: generators, reference engine, runtime monitors over real executions, one sub-command per property; Python executor pyharness/run_scripts.py for C18/C19"}],
  "checks": checks,
- "notes": "Runtime monitoring only: every check executes the real code and an oracle observes the executions. Exit 0 held on everything explored, 1 violation (VIOLATION property=<id> replay=<path>), 2 inconclusive. VERIF_SEED seeds every random choice. known_findings.json lists the genuine defects found (all repaired by fix: commits; none open).",
+ "notes": "Runtime monitoring only: every check executes the real code and an oracle observes the executions. Exit 0 held on everything explored, 1 violation (VIOLATION property=<id> replay=<path>), 2 inconclusive. VERIF_SEED seeds every random choice. known_findings.json lists the genuine defects found (all repaired by fix: commits; none open). Supplementary screens that are not registered checks: `./check extra miri` (workload slices under the Miri interpreter) and `./check extra valgrind` (C18/C19 scripts under memcheck); seeded/ holds 160 independently written property-breaking changes and 33 property-preserving ones with what was run against them.",
  "not_applicable": [],
 }
 json.dump(m, open("/verif/MANIFEST.json", "w"), indent=1)
